@@ -75,14 +75,18 @@ def _cols(t, scale: float) -> List[List[int]]:
         t = t.reshape(1)
     if t.dim() == 1:
         t = t.unsqueeze(1)
-    return torch.round(t.double().t() * scale).long().tolist()
+    if t.dim() > 2:
+        t = t.reshape(t.shape[0], -1)
+    # integers below 2^31 for TLC: NaN -> -2^30 (the exact non-negativity bit is then false), +-inf / huge -> +-2^30
+    v = torch.nan_to_num(t.double().t() * scale, nan=-float(1 << 30), posinf=float(1 << 30), neginf=-float(1 << 30))
+    return torch.round(v.clamp(-float(1 << 30), float(1 << 30))).long().tolist()
 
 
 def _sampler(obj) -> str:
+    """the sampler in force, read off the bound method; "?" if it is none of the three (the trace specification
+    then falls back on the options requested so far and says so in a drift line)"""
     name = getattr(getattr(obj, "sample_alpha", None), "__name__", None)
-    if name not in SAMPLER_NAMES:
-        raise MachineryError(f"cannot project the sampler in force of {type(obj).__name__}: sample_alpha={name!r}")
-    return SAMPLER_NAMES[name]
+    return SAMPLER_NAMES.get(name, "?")
 
 
 def _obs_qtz(q) -> Dict[str, Any]:
@@ -173,8 +177,20 @@ class BareMPS:
             self.quant, self.kw = P["MinMaxWeight"], {"cout": c}
             self.x = lambda: torch.randn(c, 3, generator=gen)
         self.cls = P["MPSPerChannelQtz"] if cfg["form"] == "channel" else P["MPSPerLayerQtz"]
-        self.q = self.cls(tuple(cfg["prec"]), self.quant, dict(self.kw), softmax_temperature=init["t4"] / 1e4,
-                          hard_softmax=init["hd"], gumbel_softmax=init["gum"], disable_sampling=init["dis"])
+        # the PUBLIC constructor with all sampler options, by keyword or positionally (in the order of the class's own
+        # signature, so that only a constructor that passes them on wrongly is blamed, not a re-ordered signature)
+        opts = {"softmax_temperature": init["t4"] / 1e4, "hard_softmax": init["hd"], "gumbel_softmax": init["gum"],
+                "disable_sampling": init["dis"]}
+        if cfg.get("ctor", "kw") == "pos":
+            import inspect
+            names = [p_ for p_ in inspect.signature(self.cls.__init__).parameters if p_ != "self"]
+            given = {"precision": tuple(cfg["prec"]), "quantizer": self.quant, "quantizer_kwargs": dict(self.kw), **opts}
+            if set(names) == set(given):
+                self.q = self.cls(*[given[n_] for n_ in names])
+            else:                                   # other parameter names: let the keyword call speak
+                self.q = self.cls(tuple(cfg["prec"]), self.quant, dict(self.kw), **opts)
+        else:
+            self.q = self.cls(tuple(cfg["prec"]), self.quant, dict(self.kw), **opts)
         self.dp = [{"k": "mps", "ctor": "bare"}]
         self.shape = [(n, c if cfg["form"] == "channel" else 1)]
         self.q.alpha.requires_grad = bool(init.get("sel", True))
@@ -237,7 +253,10 @@ class BareSN:
         self.cfg = cfg
         self.gen = gen
         self.n = cfg["N"]
-        self.c = P["SuperNetCombiner"](self.n, init["gum"], init["hd"])
+        if cfg.get("ctor", "kw") == "pos":
+            self.c = P["SuperNetCombiner"](self.n, init["gum"], init["hd"])
+        else:
+            self.c = P["SuperNetCombiner"](n_branches=self.n, gumbel_softmax=init["gum"], hard_softmax=init["hd"])
         self.c.train_selection = bool(init.get("sel", True))     # (a combiner is built frozen; SuperNet.__init__ unfreezes it)
         self.c.softmax_temperature = init["t4"] / 1e4
         _set_alpha(self.c, init["alpha0"][0])
@@ -466,7 +485,7 @@ class ModelMPS:
         return rep, [[] for _ in self.q], vlog
 
 
-def _sn_net(blocks: List[int], gum: bool, hd: bool):
+def _sn_net(blocks: List[int], gum: bool, hd: bool, pos: bool = False):
     nn, SNM = P["nn"], P["SuperNetModule"]
 
     def branches(n, variant):
@@ -484,7 +503,8 @@ def _sn_net(blocks: List[int], gum: bool, hd: bool):
     class Net(nn.Module):
         def __init__(self):
             super().__init__()
-            self.blk = nn.ModuleList([SNM(branches(n, 3 * i), gumbel_softmax=gum, hard_softmax=hd)
+            self.blk = nn.ModuleList([SNM(branches(n, 3 * i), gum, hd) if pos else
+                                      SNM(branches(n, 3 * i), gumbel_softmax=gum, hard_softmax=hd)
                                       for i, n in enumerate(blocks)])
             self.head = nn.Conv2d(3, 2, 1)
 
@@ -502,7 +522,8 @@ class ModelSN:
         self.cfg = cfg
         self.gen = gen
         torch.default_generator.manual_seed(cfg.get("wseed", 0))
-        self.m = P["SuperNet"](_sn_net(cfg["blocks"], init["gum"], init["hd"]), input_shape=(3, 4, 4))
+        self.m = P["SuperNet"](_sn_net(cfg["blocks"], init["gum"], init["hd"], cfg.get("ctor", "kw") == "pos"),
+                                 input_shape=(3, 4, 4))
         self.m.update_softmax_options(temperature=init["t4"] / 1e4)
         self.m.train()
         self.names = [n for n, _, l in self.m._unique_leaf_modules if isinstance(l, P["SuperNetCombiner"])]
@@ -590,44 +611,76 @@ DRIVERS = {"bare_mps": BareMPS, "bare_sn": BareSN, "model_mps": ModelMPS, "model
 # ----------------------------------------------------------------------------------------------
 # scenario execution (also used by --replay)
 # ----------------------------------------------------------------------------------------------
-def _check_domain(obs: List[Dict[str, Any]]) -> None:
-    for o in obs:
-        if not (500 <= o["t4"] <= 200000):
-            raise MachineryError(f"harness generated a temperature outside [0.05, 20]: {o['t4']}")
-        for col in o["al"]:
-            s = sorted(col)
-            if any(b - a < 499 for a, b in zip(s, s[1:])):
+def _check_written(t4: Optional[int], mats: Optional[List[List[List[int]]]]) -> None:
+    """what the HARNESS writes must lie in the property's domain (a harness bug otherwise); what the object then
+    holds is judged by the trace specification (clause C10.domain)"""
+    if t4 is not None and not (500 <= t4 <= 200000):
+        raise MachineryError(f"harness generated a temperature outside [0.05, 20]: {t4}")
+    for mat in mats or []:
+        for col in mat:
+            srt = sorted(col)
+            if any(b - a < 499 for a, b in zip(srt, srt[1:])):
                 raise MachineryError(f"harness generated coefficients with a gap below 0.05: {col}")
 
 
+def _errtext(ex: BaseException) -> str:
+    txt = f"{type(ex).__name__}: {ex}"
+    txt = "".join(ch if 32 <= ord(ch) < 127 and ch not in '"\\' else " " for ch in txt)
+    return " ".join(txt.split())[:300]
+
+
 def execute(sc: Dict[str, Any], open_ids: List[str]) -> Tuple[Dict[str, Any], Any]:
-    """Run one scenario on a fresh real object; return (trace, driver)."""
+    """Run one scenario on a fresh real object; return (trace, driver).  TOTAL: an exception raised by the library
+    (constructor, call, or while its state is read) ends the trace with an event that carries the exception text -
+    the trace specification turns it into the clause C10.raises; only harness errors (MachineryError) propagate."""
     _setup()
     torch = P["torch"]
     torch.default_generator.manual_seed(sc["tseed"])          # Gumbel noise (CPU generator only)
     gen = torch.Generator().manual_seed(sc["tseed"] + 1)
-    drv = DRIVERS[sc["driver"]](sc["cfg"], sc["init"], gen)
-    ev = []
-    obs = drv.observe()
-    _check_domain(obs)
-    ev.append({"a": "init", "v": drv.init_v, "o": obs, "rep": [], "rv": [[] for _ in drv.dp]})
-    for a, v in sc["steps"]:
-        if a in ("alpha", "load") and [(len(m[0]), len(m)) for m in v["al"]] != [tuple(x) for x in drv.shape]:
-            raise MachineryError(f"scenario coefficients {[(len(m[0]), len(m)) for m in v['al']]} do not fit the decision points {drv.shape}")
-        rep, rv, vlog = drv.step(a, v)
+    ini = sc["init"]
+    _check_written(ini["t4"], ini.get("alpha0"))
+    kind = "sn" if sc["driver"] in ("bare_sn", "model_sn") else "mps"
+    requested = {"hd": ini["hd"], "gum": ini["gum"], "dis": ini.get("dis", False) and kind == "mps", "t4": ini["t4"],
+                 "smp": sc["driver"] == "bare_mps", "sel": bool(ini.get("sel", True))}
+    try:
+        drv = DRIVERS[sc["driver"]](sc["cfg"], ini, gen)
         obs = drv.observe()
-        _check_domain(obs)
+    except MachineryError:
+        raise
+    except Exception as ex:                                   # noqa: the library failed to build / be read
+        dp = [{"k": kind, "ctor": "bare" if sc["driver"].startswith("bare") else "model"}]
+        return {"open": list(open_ids), "dp": dp,
+                "ev": [{"a": "init", "v": requested, "o": [], "rep": [], "rv": [], "err": _errtext(ex)}]}, None
+    ev = [{"a": "init", "v": drv.init_v, "o": obs, "rep": [], "rv": [[] for _ in drv.dp], "err": ""}]
+    for a, v in sc["steps"]:
+        if a in ("alpha", "load"):
+            if [(len(m[0]), len(m)) for m in v["al"]] != [tuple(x) for x in drv.shape]:
+                raise MachineryError(f"scenario coefficients {[(len(m[0]), len(m)) for m in v['al']]} do not fit the decision points {drv.shape}")
+            _check_written(v.get("t4"), v["al"])
+        elif a == "temp":
+            _check_written(v, None)
+        err, rep, rv, vlog = "", [], [[] for _ in drv.dp], None
+        try:
+            rep, rv, vlog = drv.step(a, v)
+            obs = drv.observe()
+        except MachineryError:
+            raise
+        except Exception as ex:                               # noqa: the library raised
+            err = _errtext(ex)
         if a in ("temp", "hard", "gumbel", "disable", "freeze"):
             lv = v
         elif a == "fwd":
             lv = bool(v)                                   # grad mode
         elif a == "alpha":
             lv = {"wk": v["wk"], "al": v["al"]}            # how, and what, was written
-        elif a == "load":
+        elif a == "load" and vlog is not None:
             lv = vlog                                      # the checkpoint: alpha, theta_alpha, temperature per decision point
         else:
             lv = 0
-        ev.append({"a": a, "v": lv, "o": obs, "rep": rep, "rv": rv})
+        ev.append({"a": a, "v": lv, "o": obs, "rep": rep if not err else [], "rv": rv if not err else [[] for _ in drv.dp],
+                   "err": err})
+        if err:
+            break
     return {"open": list(open_ids), "dp": drv.dp, "ev": ev}, drv
 
 
@@ -852,6 +905,8 @@ def scenarios_from_graph(nodes, edges, init, driver: str, cfg_of, applicable, se
                                   "t4": _temp(rng, args[2])}])
             else:
                 steps.append([a, 0])
+        cfg = dict(cfg)
+        cfg["ctor"] = "pos" if len(out) % 2 else "kw"          # public constructors by keyword and positionally, alternately
         out.append({"kind": "graph", "driver": driver, "cfg": {k: v for k, v in cfg.items() if not k.startswith("_")},
                     "init": ini, "steps": steps, "tseed": rng.randrange(1 << 30), "edges": len(seg)})
     return out
@@ -887,13 +942,15 @@ def random_scenario(rng: random.Random, driver: str) -> Dict[str, Any]:
     if driver == "bare_mps":
         n = rng.randint(1, 8)
         form = rng.choice(["layer", "channel"])
-        c = rng.choice([1, 2, 3, 5, 8, 16]) if form == "channel" else 1
+        c = rng.choice([1, 2, 3, 4, 5, 8, 16]) if form == "channel" else 1
+        if form == "channel" and rng.random() < 0.4:
+            c = n                                   # SQUARE coefficient matrix: as many channels as precisions
         # alpha at construction = precision / max precision: gaps >= 1/16 > 0.05 for any choice from this pool
         prec = rng.sample(SORTED_PREC + ([0] if form == "channel" else []), n)
         if max(prec) == 0:
             prec[0] = 4
         cfg = {"form": form, "prec": prec, "C": c if form == "channel" else 3,
-               "qtz": "minmax" if form == "channel" else rng.choice(["pact", "minmax"])}
+               "qtz": "minmax" if form == "channel" else rng.choice(["pact", "minmax"]), "ctor": rng.choice(["kw", "pos"])}
         shape = [(n, c if form == "channel" else 1)]
         acts = ["temp", "hard", "gumbel", "disable", "train", "eval", "eval", "fwd", "fwd", "fwd", "alpha", "alpha", "load",
                 "freeze", "freeze"]
@@ -901,7 +958,7 @@ def random_scenario(rng: random.Random, driver: str) -> Dict[str, Any]:
         ini["sel"] = rng.random() < 0.7
     elif driver == "bare_sn":
         n = rng.randint(1, 8)
-        cfg = {"N": n}
+        cfg = {"N": n, "ctor": rng.choice(["kw", "pos"])}
         shape = [(n, 1)]
         ini["dis"] = False
         ini["alpha0"] = _rand_alpha(rng, shape)
@@ -925,7 +982,7 @@ def random_scenario(rng: random.Random, driver: str) -> Dict[str, Any]:
         ini["sel"] = True
     elif driver == "model_sn":
         blocks = [rng.randint(1, 8) for _ in range(rng.randint(1, 3))]
-        cfg = {"blocks": blocks, "wseed": rng.randrange(1000)}
+        cfg = {"blocks": blocks, "wseed": rng.randrange(1000), "ctor": rng.choice(["kw", "pos"])}
         shape = [(n, 1) for n in blocks]
         ini["dis"] = False
         ini["alpha0"] = _rand_alpha(rng, shape)
@@ -997,6 +1054,44 @@ def pinned_scenarios() -> List[Dict[str, Any]]:
                             steps = [x for x in steps if x[0] not in ("summary", "export")]
                         out.append({"kind": "pinned", "driver": driver, "cfg": cfg, "init": ini, "steps": steps,
                                     "tseed": 7 + len(out)})
+
+    # SQUARE per-channel coefficient matrices (as many channels as precisions: shapes coincide with the transpose):
+    # every assignment of winners to channels for 2x2, 3x3, 4x4, through eval mode, hard and soft training,
+    # built by the public constructor by keyword and positionally with hard != gumbel among the options
+    import itertools
+
+    def mat(win, n):           # one vector per channel, channel c won by candidate win[c] (1-based)
+        return [[_alpha_from_ranking(rng, [((i - w) % n) + 1 for i in range(n)]) for w in win]]
+    k = 0
+    for n, prec in ((2, [4, 8]), (3, [2, 4, 8]), (4, [2, 4, 6, 8])):
+        for win in itertools.product(range(1, n + 1), repeat=n):
+            other = tuple(((w % n) + 1) for w in win[::-1])
+            hd, gum = [(False, False), (True, False), (False, True), (True, True)][k % 4]
+            steps = [["alpha", {"wk": "copy", "al": mat(win, n)}], ["fwd", True], ["eval", 0], ["fwd", True], ["fwd", False],
+                     ["train", 0], ["hard", True], ["fwd", True], ["alpha", {"wk": "data", "al": mat(other, n)}],
+                     ["fwd", True], ["eval", 0], ["fwd", False]]
+            out.append({"kind": "pinned", "driver": "bare_mps",
+                        "cfg": {"form": "channel", "prec": prec, "C": n, "qtz": "minmax", "ctor": "pos" if k % 2 else "kw"},
+                        "init": {"hd": hd, "gum": gum, "dis": False, "t4": [10000, 500, 200000][k % 3], "sel": True},
+                        "steps": steps, "tseed": 1000 + k})
+            k += 1
+    # ... and inside whole models: c2 has 3 output channels (square with 3 weight precisions), c1 has 4 (square with 4)
+    chans = (4, 3, 5)
+    for w_prec in ([2, 4, 8], [2, 4, 6, 8]):
+        nw = len(w_prec)
+        shape = [(2, 1), (2, 1), (nw, chans[0]), (2, 1), (nw, chans[1]), (1, 1), (nw, chans[2])]
+        for r in range(6):
+            def al_m(shift):
+                return [[_alpha_from_ranking(rng, [((i - (c * (r + 1) + d + shift)) % n) + 1 for i in range(n)])
+                         for c in range(cc)] for d, (n, cc) in enumerate(shape)]
+            hd, gum = [(False, False), (True, False), (False, True)][r % 3]
+            steps = [["alpha", {"wk": "copy", "al": al_m(0)}], ["fwd", True], ["summary", 0], ["export", 0], ["eval", 0],
+                     ["fwd", False], ["alpha", {"wk": "copy", "al": al_m(1)}], ["fwd", True], ["summary", 0], ["export", 0],
+                     ["train", 0], ["hard", True], ["fwd", True]]
+            out.append({"kind": "pinned", "driver": "model_mps",
+                        "cfg": {"w": "channel", "a_prec": [4, 8], "w_prec": w_prec, "wseed": r},
+                        "init": {"hd": hd, "gum": gum, "dis": False, "t4": 10000, "sel": True},
+                        "steps": steps, "tseed": 2000 + 10 * nw + r})
     return out
 
 
@@ -1124,8 +1219,10 @@ def run(tier: str, seed: int, replay: Optional[str] = None) -> int:
               ("SelectionMC_mps_skipflag", {"OneHotAtArgmax"}), ("SelectionMC_mps_skipver", {"OneHotAtArgmax"}),
               ("SelectionMC_sn_skipflag", {"OneHotAtArgmax", "ForwardSamples"}),
               ("SelectionMC_sn_trainonly", broken), ("SelectionMC_mps_trainonly", broken))
-    graphs = [f"SelectionMC_mps_{optimpl}_{sfx}", f"SelectionMC_sn_{sfx}", f"SelectionMC_pc_{optimpl}_{sfx}",
+    graphs = [f"SelectionMC_mps_{optimpl}_{sfx}", f"SelectionMC_sn_{sfx}",
+              *([f"SelectionMC_pc_{optimpl}_{sfx}"] if thorough else []),
               f"SelectionMC_pcw_{optimpl}_{sfx}", f"SelectionMC_mpsmodel_{optimpl}_{sfx}", f"SelectionMC_snmodel_{sfx}",
+              *([] if thorough else [f"SelectionMC_sq3_{optimpl}_quick"]),
               f"SelectionMC_mpsfrz_{optimpl}_{sfx}", f"SelectionMC_mmfrz_{optimpl}_{sfx}", f"SelectionMC_snfrz_{sfx}",
               f"SelectionMC_smfrz_{sfx}"] + \
              ([f"SelectionMC_mps_{optimpl}_thorough3", "SelectionMC_sn_thorough3"] if thorough else [])
@@ -1150,7 +1247,12 @@ def run(tier: str, seed: int, replay: Optional[str] = None) -> int:
             if not (got & clauses):
                 raise MachineryError(f"sanity config {cfg} violated {sorted(got)}, expected one of {sorted(clauses)}")
         # per-channel enumeration: every ranking matrix x every constructor option x mode, one forward pass per grad mode
-        G["pc"] = _graph(R, f"SelectionMC_pc_{optimpl}_{sfx}", ["ModeTrain", "ModeEval", "Forward"])
+        # (quick: replaced by the square 3x3 enumeration below, the 2x2 pcw graph, which has every constructor option,
+        #  and the pinned square histories)
+        if thorough:
+            G["pc"] = _graph(R, f"SelectionMC_pc_{optimpl}_{sfx}", ["ModeTrain", "ModeEval", "Forward"])
+        if not thorough:    # square 3x3 matrices (thorough: the pc graph itself is 3x3), every ranking matrix
+            G["sq3"] = _graph(R, f"SelectionMC_sq3_{optimpl}_quick", ["ModeTrain", "ModeEval", "Forward"])
         # per-channel writes: every way of writing alpha between forward passes of either grad mode, every constructor option
         G["pcw"] = _graph(R, f"SelectionMC_pcw_{optimpl}_{sfx}", ["ModeTrain", "ModeEval", "Forward", "SetAlpha"] +
                           (["Load"] if thorough else []))
@@ -1203,12 +1305,18 @@ def run(tier: str, seed: int, replay: Optional[str] = None) -> int:
 
     del JOBS[:]
     scen += bare_layer(G["mps"], f"MPSPerLayerQtz / mps_{optimpl}_{sfx}: every edge")
-    pc_ch = len(next(iter(G["pc"][0].values()))["st"]["rank"])
-    scen += scenarios_from_graph(*G["pc"], "bare_mps",
-                                 lambda st: {"form": "channel", "prec": [2, 4, 8], "C": pc_ch, "qtz": "minmax",
-                                             "_shape": [(3, pc_ch)]},
-                                 not_bare, seg_len, rng, init_alpha_any=True,
-                                 what=f"MPSPerChannelQtz / pc_{optimpl}_{sfx}: every edge")
+    if "pc" in G:
+        pc_ch = len(next(iter(G["pc"][0].values()))["st"]["rank"])
+        scen += scenarios_from_graph(*G["pc"], "bare_mps",
+                                     lambda st: {"form": "channel", "prec": [2, 4, 8], "C": pc_ch, "qtz": "minmax",
+                                                 "_shape": [(3, pc_ch)]},
+                                     not_bare, seg_len, rng, init_alpha_any=True,
+                                     what=f"MPSPerChannelQtz / pc_{optimpl}_{sfx}: every edge")
+    if "sq3" in G:
+        scen += scenarios_from_graph(*G["sq3"], "bare_mps",
+                                     lambda st: {"form": "channel", "prec": [2, 4, 8], "C": 3, "qtz": "minmax", "_shape": [(3, 3)]},
+                                     not_bare, seg_len, rng, init_alpha_any=True,
+                                     what=f"MPSPerChannelQtz, SQUARE 3x3 / sq3_{optimpl}_quick: every edge (every ranking matrix)")
     pw_ch = len(next(iter(G["pcw"][0].values()))["st"]["rank"])
     scen += bare_channel(G["pcw"], f"MPSPerChannelQtz ({pw_ch} channels) / pcw_{optimpl}_{sfx}: every edge", c=pw_ch)
     if thorough:        # (per-channel objects walk the full alphabet in the mpsfrz graph below)
